@@ -57,6 +57,7 @@ func runC14(c *Ctx) {
 	ruleAllColumns(c, p, "C14.all-columns")
 	ruleAssertSiblings(c, p, "C14.assert-siblings")
 	ruleVersionArgs(c, p, "C14.version")
+	ruleSameExtent(c, p, "C14.same-extent")
 	for _, cf := range c.Configs() {
 		if pc := c.Prog(cf); pc != nil {
 			ruleEncoderPure(c, pc, "C14.pure")
@@ -977,4 +978,58 @@ func ruleAssertSiblings(c *Ctx, p *core.Program, rule string) {
 	} else {
 		c.R.Bad(rule, "Block.EncodeRawBlock=WriteBlock", cfg, p.Pos(wb.Pos()), "the buffered encoder asserts its columns to {"+strings.Join(a, ", ")+"}, the vectored one to {"+strings.Join(b, ", ")+"}: a column that satisfies one set but not the other is encoded differently on the two paths")
 	}
+}
+
+// ruleSameExtent (C14): the vectored path chains the same extent of column memory that the buffered path appends.
+func ruleSameExtent(c *Ctx, p *core.Program, rule string) {
+	c.R.Rule(rule, "for every column type whose EncodeColumn appends a receiver field as a whole (append(b.Buf, c.F...)) and whose WriteColumn chains that field (ChainWrite), WriteColumn chains the whole field too - not a window c.F[:n] computed from the row count: the two paths must put the same bytes on the wire for every state the public fields can be in (Buf filled directly, SetSize on a reused column), and only the buffered path would carry the bytes beyond n")
+	cfg := p.Cfg.Name
+	n := 0
+	for _, ct := range columnTypes(p) {
+		enc, wr := methodOf(p, ct, "EncodeColumn"), methodOf(p, ct, "WriteColumn")
+		if enc == nil || wr == nil || enc.Blocks == nil || wr.Blocks == nil || len(enc.Params) == 0 || len(wr.Params) == 0 {
+			continue
+		}
+		wholeField := func(fn *ssa.Function, v ssa.Value) (string, bool, bool) {
+			// (field, isWhole, ok)
+			windowed := false
+			if sl, ok := v.(*ssa.Slice); ok {
+				v = sl.X
+				windowed = sl.Low != nil || sl.High != nil
+			}
+			ap := accessPath(v, 0)
+			if !strings.HasPrefix(ap, "recv.") || strings.Contains(ap[5:], ".") || strings.Contains(ap, "[") {
+				return "", false, false
+			}
+			return ap[5:], !windowed, true
+		}
+		// what EncodeColumn appends
+		encWhole := map[string]bool{}
+		for _, call := range core.Calls(enc) {
+			if bi, ok := call.Common().Value.(*ssa.Builtin); ok && bi.Name() == "append" && len(call.Common().Args) == 2 {
+				if f, whole, ok := wholeField(enc, call.Common().Args[1]); ok && whole {
+					encWhole[f] = true
+				}
+			}
+		}
+		if len(encWhole) == 0 {
+			continue
+		}
+		for _, call := range core.FindCalls(wr, func(f *types.Func) bool { return core.IsMethod(f, core.PkgProto, "Writer", "ChainWrite") }) {
+			args := call.Common().Args
+			f, whole, ok := wholeField(wr, args[len(args)-1])
+			if !ok || !encWhole[f] {
+				continue
+			}
+			n++
+			key := ct.Obj().Name() + "/" + f
+			if whole {
+				c.R.Ok(rule, key, cfg, p.Pos(call.Pos()), "both paths emit the whole field")
+			} else {
+				c.R.Bad(rule, key, cfg, p.Pos(call.Pos()), "EncodeColumn appends the whole of "+f+", WriteColumn chains only a window of it: bytes beyond the window reach the wire on the buffered (compressed) path only")
+			}
+		}
+	}
+	c.R.Count("columns emitting a whole field on both paths["+cfg+"]", n)
+	c.R.Floor(rule, cfg, n, 1)
 }
